@@ -766,7 +766,7 @@ BOOM_TYPES = tuple(BOOMS.values())
 class FaultPlan:
     """'the k-th callback invocation raises' with k symbolic: every tick forks on k == i."""
 
-    def __init__(self, env, name='crash_k', enabled=True, exc='Exception'):
+    def __init__(self, env, name='crash_k', enabled=True, exc='Exception', lo=0):
         self.env = env
         self.exc = BOOMS[exc]
         self.enabled = enabled
@@ -774,14 +774,15 @@ class FaultPlan:
         self.i = 0
         self.fired_at = None
         self.sites = []
+        self.lo = lo            # only invocations #lo, #lo+1, ... may fail (long runs: the early ones are covered elsewhere)
         if enabled:
-            env.assume(self.k >= 0)
+            env.assume(self.k >= lo)
 
     def tick(self, site):
         i = self.i
         self.i += 1
         self.sites.append(site)
-        if not self.enabled or self.fired_at is not None:
+        if not self.enabled or self.fired_at is not None or i < self.lo:
             return
         hit = (self.k == i)
         if bool(hit):
